@@ -20,7 +20,7 @@ ASSUMPTIONS = [
 DT = {"f16": torch.float16, "bf16": torch.bfloat16, "f32": torch.float32, "f64": torch.float64}
 
 QUICK_ALPHABET = ["to_f16", "to_bf16", "to_f32", "to_f64", "double", "half", "to_tensor_f64", "to_inst_f64", "simulate", "reg_f64",
-                  "deriv_to_f32", "gdef_f64", "gdef_f32"]
+                  "deriv_to_f32", "gdef_f64", "gdef_f32", "eval"]
 FULL_ALPHABET = QUICK_ALPHABET + ["float", "bfloat16", "to_inst_none", "deriv_double", "to_int", "to_kw_f32", "float64", "float16",
                                   "to_tensor_bf16", "simulate_big"]
 
@@ -167,6 +167,23 @@ def run_sequence(case, ctx):
                     torch.set_default_dtype(torch.float64)
                 elif o == "gdef_f32":
                     torch.set_default_dtype(torch.float32)
+                elif o == "eval":
+                    # use the instruments in the middle of the history (anything cached here must not survive a later cast)
+                    if "spot" in dict(ul.named_buffers()):
+                        mid = dict(ul.named_buffers())["spot"].dtype
+                        outs = {"payoff": deriv.payoff}
+                        if case["deriv"] in OPTIONS:
+                            outs.update({"time_to_maturity()": deriv.time_to_maturity, "moneyness()": deriv.moneyness,
+                                         "log_moneyness()": deriv.log_moneyness, "max_moneyness()": deriv.max_moneyness,
+                                         "time_to_maturity(0)": lambda: deriv.time_to_maturity(0),
+                                         "feature:time_to_maturity": lambda: get_feature("time_to_maturity").of(deriv).get(None)})
+                        if case["primary"] in STOCKS:
+                            outs.update({"volatility": lambda: ul.volatility, "variance": lambda: ul.variance})
+                        outs["naked.compute_pl"] = lambda: Hedger(Naked(), ["zeros"]).compute_pl(deriv)
+                        for lab, fn in outs.items():
+                            r = fn()
+                            ctx.check(r.dtype == mid, "C17/output-dtype", f"mid-history {lab} is {r.dtype}, instruments are {mid} (ops {case['ops'][: i + 1]})",
+                                      output=lab)
                 elif o == "to_int":
                     for bad in (torch.int64, torch.bool, torch.int32):
                         ctx.expect_raises("C17/non-float-accepted", (TypeError,), lambda bad=bad: ul.to(bad))
@@ -233,6 +250,8 @@ def run_sequence(case, ctx):
         try:
             out("compute_loss", lambda: hg.compute_loss(deriv, n_paths=2, enable_grad=False), want)
             out("price", lambda: hg.price(deriv, n_paths=2), want)
+            out("compute_loss(n_times=2)", lambda: hg.compute_loss(deriv, n_paths=2, n_times=2, enable_grad=False), want)
+            out("price(n_times=3)", lambda: hg.price(deriv, n_paths=2, n_times=3), want)
         except Abort:
             pass
         ctx.nontrivial(cast_after_sim)
@@ -267,13 +286,13 @@ def random_history(draw):
 LEVEL = "exploration"
 META = {
     "technique": "model-based testing of operation histories: exhaustive enumeration (itertools.product) of cast/simulate sequences to a bounded depth plus Hypothesis-generated longer histories, checked against a reference dtype model",
-    "level_text": "Exploration, exhaustive to a stated depth: all 13^3 (quick) / 13^4 (thorough) sequences over the cast/simulate/register/default-dtype alphabet for each of the 8 primaries (derivative type rotating), plus 23^3 sequences of the full alphabet on three primaries and random histories of length 4..12; after every operation every buffer's dtype, the declared dtype and the derivative alias are compared with a reference model, after every sequence a new simulation and every derived output (payoff, features, listed price, hedge, P&L, loss, price) must be in that dtype; non-floating dtypes must raise TypeError.",
+    "level_text": "Exploration, exhaustive to a stated depth: all 14^3 (quick) / 14^4 (thorough) sequences over the cast/simulate/register/default-dtype alphabet for each of the 8 primaries (derivative type rotating), plus 23^3 sequences of the full alphabet on three primaries and random histories of length 4..12; after every operation every buffer's dtype, the declared dtype and the derivative alias are compared with a reference model, after every sequence a new simulation and every derived output (payoff, features, listed price, hedge, P&L, loss, price) must be in that dtype; non-floating dtypes must raise TypeError.",
 }
 
 SUBS = [
     Sub("exhaustive_sequences", run_sequence,
         rule="itertools.product over {to f16/bf16/f32/f64, double, half, to(tensor f64), to(instrument f64), simulate, register_buffer(f64), "
-             "derivative.to(f32), set_default_dtype f64/f32}^depth (depth 3 quick, 4 thorough) x 8 primaries, derivative type rotating "
+             "derivative.to(f32), set_default_dtype f64/f32, eval (use payoff/features/volatility/P&L mid-history)}^depth (depth 3 quick, 4 thorough) x 8 primaries, derivative type rotating "
              "over 6 types; each sequence is followed by a final simulate and all derived outputs. Non-trivial: a cast occurs after a "
              "simulate (and the final simulate follows it).",
         enumerate=enumerate_sequences, exhaustive=True, time_cap={"quick": 240.0, "thorough": 3000.0}),
